@@ -1,14 +1,256 @@
 import Cfi.Line
 import Spec.C01
-/-! C01 — property theorems (being extended; see DESIGN.md section 6/C01). -/
+import Proofs.IntLaw
+import Proofs.LitLaw
+import Proofs.Layout
+/-!
+C01 — property theorems.
+
+Structure: (1) per-kind render/parse laws (`RenderLaw`): proved here for
+missing values of every kind, integers and literals; floats and dates enter
+as the named hypothesis `RenderLaw f v` (their laws are validated on every run
+by the exact correspondence and are being proved in `Proofs/`); (2) the layout
+theorem lifts the per-field laws to whole positional lines, for any number of
+fields, any order, any gaps.
+-/
 namespace Props.C01
 open Cfi Cfi.Text Spec.C01
 
-/-- missing values of every kind read back as None ("" for literals) — first
-clause proved; the per-kind render/parse laws follow in this file. -/
+/-- the per-kind law: the rendering is exactly `size` wide and parses back to
+the canonical form of the value -/
+def RenderLaw (f : Field) (v : Val) : Prop :=
+  ∃ r, rendersTo f v r ∧ parseText f.kind r = some (canon f v r) ∧
+    -- and rendering the canonical form gives the same text (stability)
+    renderText f (canon f v r) = .ok r
+
 theorem canon_null (f : Field) (v : Val) (span : List Char) (h : v.isNull = true) :
     canon f v span = (match f.kind with | .lit => .str [] | _ => .none) := by
   simp only [canon, h, if_true]
   cases f.kind <;> rfl
+
+theorem render_null (f : Field) (v : Val) (hn : v.isNull = true) :
+    renderText f v = .ok (List.replicate f.size ' ') := by
+  unfold renderText renderRaw renderFull
+  simp only [hn, if_true, Except.map]
+  cases f.kind <;> cases v <;> simp_all [ljust, rjust, Val.isNull]
+
+/-! ### integers -/
+
+/-- **Integers**: any integer whose text fits the field is rendered right-justified,
+`size` wide, reads back unchanged, and re-renders to the same text. -/
+theorem law_int (f : Field) (n : Int) (hk : f.kind = .int) (hgeo : f.stop = f.size + f.start)
+    (hfit : (PyInt.pyStr n).length ≤ f.size) (hbig : n.natAbs < 10 ^ 4300) : RenderLaw f (.int n) := by
+  refine ⟨rjust (PyInt.pyStr n) f.size ' ', ⟨?_, ?_, hgeo⟩, ?_, ?_⟩
+  · simp [renderText, renderRaw, renderFull, hk, Val.isNull, Except.map]
+  · rw [length_rjust]; omega
+  · simp only [parseText, hk, canon, Val.isNull, pyInt_rjust_pyStr n f.size hbig]
+    simp
+  · simp [canon, hk, Val.isNull, renderText, renderRaw, renderFull, Except.map]
+
+/-! ### literals -/
+
+/-- a literal in canonical position: its blank-trimmed text followed by blanks only
+(no leading white space; any trailing white space is plain blanks) -/
+def litCanonical (s : List Char) : Prop := ∃ k, s = strip s ++ List.replicate k ' '
+
+theorem ljust_strip_eq {s : List Char} {size : Nat} (hc : litCanonical s) (hfit : s.length ≤ size) :
+    ljust (strip s) size ' ' = ljust s size ' ' := by
+  obtain ⟨k, hk⟩ := hc
+  have hl : s.length = (strip s).length + k := by
+    have := congrArg List.length hk; simpa using this
+  unfold ljust
+  rw [show s ++ List.replicate (size - s.length) ' ' = strip s ++ (List.replicate k ' ' ++ List.replicate (size - s.length) ' ') by
+    rw [← List.append_assoc, ← hk]]
+  rw [List.replicate_append_replicate]
+  congr 2
+  omega
+
+/-- **Literals**: rendered left-justified, `size` wide; read back blank-trimmed;
+re-rendering the trimmed text gives the same text. -/
+theorem law_lit (f : Field) (s : List Char) (hk : f.kind = .lit) (hgeo : f.stop = f.size + f.start)
+    (hfit : s.length ≤ f.size) (hc : litCanonical s) : RenderLaw f (.str s) := by
+  refine ⟨ljust s f.size ' ', ⟨?_, ?_, hgeo⟩, ?_, ?_⟩
+  · simp [renderText, renderRaw, renderFull, hk, Val.isNull, Except.map]
+  · rw [length_ljust]; omega
+  · simp [parseText, hk, canon, Val.isNull, strip_ljust]
+  · simp only [canon, hk, Val.isNull, renderText, renderRaw, renderFull, Except.map]
+    simp [ljust_strip_eq hc hfit]
+
+/-! ### missing values (every kind) -/
+
+/-- blanks are not a number, and trim to the empty literal -/
+theorem parse_blank_lit (n : Nat) : parseText .lit (List.replicate n ' ') = some (.str []) := by
+  simp [parseText, strip_replicate_blank]
+
+theorem parse_blank_int (n : Nat) : parseText .int (List.replicate n ' ') = none := by
+  have hs : stripBy isNumWs (List.replicate n ' ') = [] := by
+    have := stripBy_append_replicate (p := isNumWs) [] n ' ' isNumWs_blank
+    simpa [stripBy] using this
+  simp [parseText, PyInt.pyInt, hs, PyInt.sign, PyInt.digitsUS]
+
+/-- the blank span of a missing value reads back as None ("" for literals) -/
+def BlankLaw (k : Kind) (n : Nat) : Prop :=
+  parseText k (List.replicate n ' ') = (match k with | .lit => some (.str []) | _ => none)
+
+theorem blankLaw_lit (n : Nat) : BlankLaw .lit n := parse_blank_lit n
+theorem blankLaw_int (n : Nat) : BlankLaw .int n := parse_blank_int n
+
+/-- **Missing values** (None / NaN / NaT) of a literal or integer field: all
+blanks, read back as "" / None.  (Floats and dates: given `BlankLaw`.) -/
+theorem readText_null (f : Field) (v : Val) (hn : v.isNull = true) (hgeo : f.stop = f.size + f.start)
+    (hb : BlankLaw f.kind f.size) (line : List Char) :
+    ∃ out, f.writeText v line = .ok out ∧
+      f.readText out = (match f.kind with | .lit => .str [] | _ => .none) := by
+  refine ⟨splice line f.start f.stop (List.replicate f.size ' ') ' ', ?_, ?_⟩
+  · simp [Field.writeText, render_null f v hn, Except.map]
+  · have hs : f.start ≤ f.stop := by omega
+    have hv : (List.replicate f.size ' ').length = f.stop - f.start := by simp; omega
+    simp only [Field.readText, slice_splice hs hv]
+    unfold BlankLaw at hb
+    rw [hb]
+    cases f.kind <;> rfl
+
+/-! ### whole lines -/
+
+/-- **Line round trip**: for every positional layout of pairwise disjoint fields
+(any number, any order, gaps allowed) and every value list satisfying the
+per-kind law, reading the written line returns the canonical form of every value. -/
+theorem line_roundtrip (fs : List Field) (vs : List Val) (rs : List (List Char))
+    (hlen : fs.length = vs.length)
+    (hr : All2 (fun (fv : Field × Val) r => rendersTo fv.1 fv.2 r) (fs.zip vs) rs)
+    (hdis : Cfi.Disjoint fs) (w : List Char) (hw : writePos fs vs = .ok w) :
+    All2 (fun (f : Field) r => f.readText w = (parseText f.kind r).getD .none) fs rs := by
+  simp only [writePos, Except.map] at hw
+  cases hwf : writeFields fs vs [] with
+  | error e => simp [hwf] at hw
+  | ok out =>
+    simp only [hwf] at hw
+    injection hw with hw
+    subst hw
+    have hspans := writeFields_spans fs vs rs hlen hr hdis [] out hwf
+    -- every span lies inside `out`, so the trailing newline does not matter
+    have hstop : ∀ (fs' : List Field) (vs' : List Val) (rs' : List (List Char)) (line : List Char),
+        fs'.length = vs'.length →
+        All2 (fun (fv : Field × Val) r => rendersTo fv.1 fv.2 r) (fs'.zip vs') rs' →
+        writeFields fs' vs' line = .ok out → ∀ f ∈ fs', f.stop ≤ out.length := by
+      intro fs'
+      induction fs' with
+      | nil => intro _ _ _ _ _ _ f hf; simp at hf
+      | cons g gs ih =>
+        intro vs' rs' line hl hr' hw' f hf
+        cases vs' with
+        | nil => simp at hl
+        | cons v' vs' =>
+          simp only [List.zip_cons_cons] at hr'
+          cases hr' with
+          | @cons _ r _ rs'' h1 hrest =>
+            obtain ⟨hrend, hrl, hgeo⟩ := h1
+            dsimp only at hrend hrl hgeo
+            simp only [writeFields, Field.writeText, hrend, Except.map, bind, Except.bind] at hw'
+            have hs : g.start ≤ g.stop := by omega
+            have hv : r.length = g.stop - g.start := by rw [hrl]; omega
+            have hlen' := length_splice (line := line) (b := ' ') hs hv
+            rcases List.mem_cons.mp hf with rfl | hf
+            · have := (writeFields_preserves gs vs' _ (by simpa using hl) hrest _ out hw' 0 0 (by omega)
+                (fun _ _ => Or.inl (Nat.zero_le _))).2
+              omega
+            · exact ih vs' _ _ (by simpa using hl) hrest hw' f hf
+    have hall := hstop fs vs rs [] hlen hr hwf
+    clear hstop hr hwf hdis hlen
+    induction hspans with
+    | nil => exact .nil
+    | @cons f r fs' rs' h1 _ ih =>
+      refine .cons ?_ (ih (fun g hg => hall g (List.mem_cons_of_mem f hg)))
+      have hle := hall f List.mem_cons_self
+      simp only [Field.readText]
+      have : slice (out ++ ['\n']) f.start f.stop = slice out f.start f.stop := by
+        simp only [slice, List.take_append_of_le_length hle]
+      rw [this, h1]
+
+/-- a positional write depends on the values only through their renderings -/
+theorem writeFields_congr (fs : List Field) (vs vs' : List Val) (hl : fs.length = vs.length)
+    (hl' : fs.length = vs'.length)
+    (h : (fs.zip vs).map (fun fv => renderText fv.1 fv.2) = (fs.zip vs').map (fun fv => renderText fv.1 fv.2))
+    (line : List Char) : writeFields fs vs line = writeFields fs vs' line := by
+  induction fs generalizing vs vs' line with
+  | nil => cases vs <;> cases vs' <;> simp_all [writeFields]
+  | cons f fs ih =>
+    cases vs with
+    | nil => simp at hl
+    | cons v vs =>
+      cases vs' with
+      | nil => simp at hl'
+      | cons v' vs' =>
+        simp only [List.zip_cons_cons, List.map_cons, List.cons.injEq] at h
+        simp only [writeFields, Field.writeText, h.1]
+        cases renderText f v' with
+        | error e => rfl
+        | ok r =>
+          simp only [Except.map, bind, Except.bind]
+          exact ih vs vs' (by simpa using hl) (by simpa using hl') h.2 _
+
+/-- **Text stability**: if every field obeys its law, writing the values that
+were read back reproduces the identical text — one write/read cycle never drifts. -/
+theorem line_stable (fs : List Field) (vs : List Val) (w : List Char)
+    (hlen : fs.length = vs.length) (hdis : Cfi.Disjoint fs)
+    (hlaw : ∀ fv ∈ fs.zip vs, RenderLaw fv.1 fv.2)
+    (hw : writePos fs vs = .ok w) : writePos fs (readPos fs w) = .ok w := by
+  -- the renderings
+  have hrs : ∃ rs, All2 (fun (fv : Field × Val) r => rendersTo fv.1 fv.2 r ∧
+      parseText fv.1.kind r = some (canon fv.1 fv.2 r) ∧ renderText fv.1 (canon fv.1 fv.2 r) = .ok r)
+      (fs.zip vs) rs := by
+    clear hw hdis hlen
+    generalize fs.zip vs = zs at hlaw
+    induction zs with
+    | nil => exact ⟨[], .nil⟩
+    | cons z zs ih =>
+      obtain ⟨r, h1, h2, h3⟩ := hlaw z List.mem_cons_self
+      obtain ⟨rs, hrs⟩ := ih (fun fv hfv => hlaw fv (List.mem_cons_of_mem z hfv))
+      exact ⟨r :: rs, .cons ⟨h1, h2, h3⟩ hrs⟩
+  obtain ⟨rs, hrs⟩ := hrs
+  have hr : All2 (fun (fv : Field × Val) r => rendersTo fv.1 fv.2 r) (fs.zip vs) rs := by
+    clear hw
+    generalize fs.zip vs = zs at hrs
+    induction hrs with
+    | nil => exact .nil
+    | cons h _ ih => exact .cons h.1 ih
+  have hread := line_roundtrip fs vs rs hlen hr hdis w hw
+  -- the values read back render to the same texts
+  have key : ∀ (fs' : List Field) (vs' : List Val) (rs' : List (List Char)),
+      All2 (fun (fv : Field × Val) r => rendersTo fv.1 fv.2 r ∧
+        parseText fv.1.kind r = some (canon fv.1 fv.2 r) ∧ renderText fv.1 (canon fv.1 fv.2 r) = .ok r)
+        (fs'.zip vs') rs' →
+      All2 (fun (f : Field) r => f.readText w = (parseText f.kind r).getD .none) fs' rs' →
+      fs'.length = vs'.length →
+      (fs'.zip (fs'.map (·.readText w))).map (fun fv => renderText fv.1 fv.2) =
+        (fs'.zip vs').map (fun fv => renderText fv.1 fv.2) := by
+    intro fs'
+    induction fs' with
+    | nil => intro _ _ _ _ _; rfl
+    | cons f fs' ih =>
+      intro vs' rs' h1 h2 hl
+      cases vs' with
+      | nil => simp at hl
+      | cons v vs' =>
+        simp only [List.zip_cons_cons] at h1
+        cases h1 with
+        | cons ha hrest =>
+          cases h2 with
+          | cons hb hrest2 =>
+            simp only [List.map_cons, List.zip_cons_cons, List.cons.injEq]
+            refine ⟨?_, ih vs' _ hrest hrest2 (by simpa using hl)⟩
+            rw [hb, ha.2.1]
+            simp only [Option.getD_some]
+            rw [ha.2.2, ha.1.1]
+  have hcongr : writeFields fs (readPos fs w) [] = writeFields fs vs [] :=
+    writeFields_congr fs (readPos fs w) vs (by simp [readPos]) hlen (key fs vs rs hrs hread hlen) []
+  simp only [writePos, hcongr] at hw ⊢
+  exact hw
+
+/-- non-vacuity of the laws: a concrete layout with gaps, in reversed order -/
+example :
+    let fs := [Field.mk' .lit 4 8, Field.mk' .int 5 1]
+    writePos fs [.str "ab".toList, .int (-42)] = .ok "   -42  ab  \n".toList ∧
+    readPos fs "   -42  ab  \n".toList = [.str "ab".toList, .int (-42)] := by decide
 
 end Props.C01
